@@ -737,6 +737,10 @@ class DestHandler:
         if not self._params.fp.metadata_only:
             self.states.step = TransactionStep.RECEIVING_FILE_DATA
             self._init_vfs_handling(Path(metadata_pdu.source_file_name).name)  # type: ignore
+            if self.states.state == CfdpState.IDLE:
+                # The filestore rejection fault abandoned the transaction: there is no
+                # transaction left to issue a Metadata-Recv indication for.
+                return
         else:
             self.states.step = TransactionStep.TRANSFER_COMPLETION
         msgs_to_user_list = None
